@@ -4,5 +4,6 @@ package all
 import (
 	_ "verif/harness/props/c04"
 	_ "verif/harness/props/c05"
+	_ "verif/harness/props/c09"
 	_ "verif/harness/props/c10"
 )
